@@ -98,6 +98,8 @@ type FnGen struct {
 	retSites    int
 	curInstr    ssa.Instruction
 	xexits      []xexit // exceptional exits (call may panic)
+	inDeferX    bool
+	curReach    string
 	track       map[string]Term
 	trackOrder  []string
 	callRes     map[string][]Term
@@ -105,9 +107,10 @@ type FnGen struct {
 }
 
 type xexit struct {
-	reach string
-	st    *State
-	pos   string
+	reach   string
+	st      *State
+	pos     string
+	ndefers int // deferred calls registered before this point
 }
 
 type iterInfo struct {
@@ -394,6 +397,102 @@ func (g *FnGen) Generate() {
 		}
 		g.block(b, cur)
 	}
+	g.finishExceptional()
+	g.callsOnly()
+}
+
+// finishExceptional: every call that may panic has an exceptional continuation. On it the registered
+// deferred calls run with the ghost state panicking=true; if a deferred closure recovers, the function
+// returns normally (zero results) and must satisfy its ensures clauses, otherwise its xensures clauses.
+func (g *FnGen) finishExceptional() {
+	if !g.wantX() {
+		return
+	}
+	w := g.w
+	w.heapSort["panicking"], w.heapSort["panicval"], w.heapSort["recovered"] = "Bool", "Int", "Bool"
+	for i, x := range g.xexits {
+		st := x.st
+		reach := g.define(g.fresh(fmt.Sprintf("xreach.%d", i)), Term{x.reach, "Bool"}).S
+		g.runDefersX(st, reach, x.ndefers)
+		pan := g.hget(st, "panicking").S
+		// still panicking: exceptional postconditions
+		for _, c := range g.clauses("xensures") {
+			env := g.envAt(st, g.entry, nil)
+			goal := g.evalBool(env, c)
+			g.oblige("xpost", c.Label, c.Props, fmt.Sprintf("(and %s %s)", reach, pan), goal, c.Src, 0).Pos = x.pos
+		}
+		// recovered: normal postconditions with zero results
+		var rs []SVal
+		res := g.fn.Signature.Results()
+		for j := 0; j < res.Len(); j++ {
+			rs = append(rs, SVal{w.zero(res.At(j).Type()), res.At(j).Type()})
+		}
+		st.heap["recovered"] = Term{"true", "Bool"}
+		for _, c := range g.clauses("ensures") {
+			env := g.envAt(st, g.entry, rs)
+			goal := g.evalBool(env, c)
+			g.oblige("post", c.Label, c.Props, fmt.Sprintf("(and %s (not %s))", reach, pan), goal, c.Src, 0).Pos = x.pos + " (recovered)"
+		}
+	}
+}
+
+func (g *FnGen) runDefersX(st *State, reach string, n int) {
+	for i := n - 1; i >= 0; i-- {
+		d := g.defers[i]
+		cond := fmt.Sprintf("(and %s %s)", reach, d.reach)
+		before := st.clone()
+		saveX := g.xexits
+		g.inDeferX = true
+		g.call(d.instr, d.instr.Common(), st, cond, nil)
+		g.inDeferX = false
+		g.xexits = saveX
+		for k, after := range st.heap {
+			b := g.hget(before, k)
+			if b.S != after.S {
+				st.heap[k] = g.define(g.fresh("H:"+k), Term{fmt.Sprintf("(ite %s %s %s)", d.reach, after.S, b.S), after.Sort})
+			}
+		}
+	}
+}
+
+// callsOnly: syntactic obligation that the body calls nothing outside the listed callees.
+func (g *FnGen) callsOnly() {
+	for _, c := range g.clauses("callsonly") {
+		allowed := map[string]bool{}
+		for _, k := range strings.Split(c.Key, ",") {
+			allowed[strings.TrimSpace(k)] = true
+		}
+		var bad []string
+		for _, b := range g.fn.Blocks {
+			for _, in := range b.Instrs {
+				cc, ok := in.(ssa.CallInstruction)
+				if !ok {
+					continue
+				}
+				com := cc.Common()
+				if _, isB := com.Value.(*ssa.Builtin); isB {
+					continue
+				}
+				var key string
+				if f := com.StaticCallee(); f != nil && !com.IsInvoke() {
+					key = g.w.funcKey(f)
+				} else {
+					key = g.w.dynKey(com)
+				}
+				if !allowed[key] {
+					bad = append(bad, key)
+				}
+			}
+		}
+		goal := "true"
+		if len(bad) > 0 {
+			goal = "false"
+		}
+		o := g.oblige("calls", c.Label, c.Props, "true", goal, "callsonly "+c.Key, g.fn.Pos())
+		if len(bad) > 0 {
+			o.Src += " -- also calls: " + strings.Join(bad, ", ")
+		}
+	}
 }
 
 func (g *FnGen) assumeGlobals(st *State, reach string) {
@@ -631,7 +730,9 @@ func (g *FnGen) block(b *ssa.BasicBlock, entry *State) {
 			return
 		}
 		g.curInstr = in
+		g.curReach = reach
 		g.instr(in, st, reach, b)
+		reach = g.curReach
 	}
 	g.out[b] = st
 }
@@ -1391,7 +1492,7 @@ func (g *FnGen) panicInstr(in *ssa.Panic, st *State, reach string) {
 	// explicit panic: allowed when the contract says maypanic (documented behaviour), else an obligation
 	if g.con != nil && g.con.Flags["maypanic"] {
 		// C05: the panic value must not be a runtime error: statically an explicit value
-		g.xexits = append(g.xexits, xexit{reach, st.clone(), posOf(g.w, in.Pos())})
+		g.xexits = append(g.xexits, xexit{reach, st.clone(), posOf(g.w, in.Pos()), len(g.defers)})
 		return
 	}
 	k := g.ordinal("safe.panic")
@@ -1401,6 +1502,11 @@ func (g *FnGen) panicInstr(in *ssa.Panic, st *State, reach string) {
 // ---------------------------------------------------------------- hooks filled in elsewhere
 
 func (g *FnGen) runDefers(st *State, reach string, exceptional bool) {
+	if len(g.defers) > 0 {
+		g.w.heapSort["panicking"], g.w.heapSort["panicval"], g.w.heapSort["recovered"] = "Bool", "Int", "Bool"
+		st.heap["panicking"] = Term{"false", "Bool"}
+		st.heap["recovered"] = Term{"false", "Bool"}
+	}
 	for i := len(g.defers) - 1; i >= 0; i-- {
 		d := g.defers[i]
 		cond := fmt.Sprintf("(and %s %s)", reach, d.reach)
